@@ -305,5 +305,33 @@ func netC11(s *Sink, tier string) {
 			s.Fail(js, "discovery over real sockets did not return exactly the controllers that answered, in arrival order")
 		}
 	}
+	// three discoveries started together on one FIXED bind port: they take turns on the port, and each of them returns
+	// every controller that answered it
+	{
+		farm.DiscoveryNoise, farm.BlankController = false, false
+		port := freeUDPPort()
+		u := farmClient(farm, port, 300*time.Millisecond, nil, nil)
+		type res struct {
+			n   int
+			err error
+		}
+		out := make(chan res, 3)
+		for i := 0; i < 3; i++ {
+			go func() {
+				devs, err := u.GetDevices()
+				out <- res{len(devs), err}
+			}()
+		}
+		for i := 0; i < 3; i++ {
+			select {
+			case x := <-out:
+				if x.err != nil || x.n != 6 {
+					s.Fail(map[string]any{"op": "net-discovery-queued", "controllers": x.n}, fmt.Sprintf("one of three simultaneous discoveries on a fixed bind port returned %d of the 6 controllers that answer (%v)", x.n, x.err))
+				}
+			case <-time.After(5 * time.Second):
+				s.Fail(map[string]any{"op": "net-discovery-queued"}, "a discovery queued on a fixed bind port did not return within 5 s (timeout 300 ms)")
+			}
+		}
+	}
 	s.Extra["net_discovery_rounds"] = rounds
 }
